@@ -87,6 +87,7 @@ def run_check(pid, tier):
         log.close()
 
     recs = []
+    reach = {}
     for s, (p, out, log) in enumerate(procs):
         if os.path.exists(out):
             with open(out) as fh:
@@ -94,9 +95,14 @@ def run_check(pid, tier):
                     line = line.strip()
                     if line:
                         try:
-                            recs.append(common.loads(line))
+                            r_ = common.loads(line)
                         except Exception:
-                            pass
+                            continue
+                        if "reach" in r_ and "index" not in r_:
+                            for k_, v_ in r_["reach"].items():
+                                reach[k_] = max(reach.get(k_, 0), v_)
+                        else:
+                            recs.append(r_)
     shard_logs = {}
     for s, why in dead:
         try:
@@ -224,6 +230,7 @@ def run_check(pid, tier):
         "known_finding_hits": {k: known_hits.get(k, 0) for k in listed},
         "floor_cases": floor,
         "floor_events": getattr(prop, "FLOOR_COUNTERS", {}).get(tier, {}),
+        "reach_skmatter_functions_lines_executed": dict(sorted(reach.items())),
         "monitored_tree": where,
         "workers": nshards,
         "verdict": "violated" if violations else ("inconclusive" if inconclusive else "held-on-observed"),
